@@ -12,7 +12,7 @@ from zope.interface import implementer
 from vlib import prelude
 from vlib.api import cond, assume, reached, R
 from vlib import api, fakes
-from vlib.ref_tor import TorModel, admissible_prefixes
+from vlib.ref_tor import TorModel, admissible_prefixes, NC
 
 prelude.install()
 from txtorcon.interface import ICircuitListener, IStreamListener  # noqa: E402
@@ -96,6 +96,7 @@ def _listeners(events, add_at, per_at, un_at, prefix=()):
         state.add_circuit_listener(g1)
         state.add_stream_listener(g1)
         g2_on = False
+        g2_off = None
         n = model.nevents()
         for i in range(len(events)):
             if i == add_at:
@@ -106,18 +107,32 @@ def _listeners(events, add_at, per_at, un_at, prefix=()):
                 per_objs = (list(state.circuits.values()), list(state.streams.values()))
                 for o in per_objs[0] + per_objs[1]:
                     o.listen(per)
+                if g2_on:
+                    # the global listener g2 is taken off the objects that exist now ...
+                    g2_off = per_objs[0] + per_objs[1]
+                    for o in g2_off:
+                        o.unlisten(g2)
             if i == un_at and per_objs is not None:
                 for o in per_objs[0] + per_objs[1]:
                     o.unlisten(per)
                 per_objs = None
+                if g2_off is not None:
+                    # ... and registered again: it must hear every object again, old and new
+                    state.add_circuit_listener(g2)
+                    state.add_stream_listener(g2)
+                    g2_off = None
             e = api.pick(events[i], 0, n - 1)
             assume(model.enabled(e))
             kind, oid, _ev = model.decode(e)
             kindname, payload = model.apply(e)
+            if model.log is None:
+                assume(False)       # (event without a defined notification list: covered by C07 only)
             exp = [_expand(x) for x in model.log]
             want['g1'] += exp
             if g2_on:
-                want['g2'] += exp
+                cur0 = (state.circuits if kind == 'C' else state.streams).get(oid)
+                if not (g2_off is not None and cur0 is not None and any(cur0 is o for o in g2_off)):
+                    want['g2'] += exp
             if per_objs is not None:
                 ids = [o.id for o in (per_objs[0] if kind == 'C' else per_objs[1])]
                 # only objects that existed when `per` subscribed (ids may be re-used by new objects)
@@ -136,7 +151,7 @@ def _listeners(events, add_at, per_at, un_at, prefix=()):
     return ''
 
 
-_E = 30
+_E = 32
 
 
 _P2 = [{'e1': a, 'e2': b} for (a, b) in admissible_prefixes(2)]
@@ -264,7 +279,7 @@ def _circuit_waits(ops):
 
 
 def _stream_waits(ops):
-    """ops over one stream on one built circuit: 0 NEW 1 SENTCONNECT 2 SUCCEEDED 3 CLOSED 4 FAILED (Tor events),
+    """ops over one stream on one built circuit: 0 NEW 1 SENTCONNECT 2 SUCCEEDED 3 CLOSED 4 FAILED 5 DETACHED (Tor events),
     7 close() 8 Tor acknowledges the oldest unanswered command"""
     state, p, t = new_state()
     model = TorModel(ncirc=1, nstream=1)
@@ -278,8 +293,8 @@ def _stream_waits(ops):
     stream = None
     try:
         for op in ops:
-            if op <= 4:
-                ev = 6 + [0, 1, 4, 6, 7][op]      # stream events start at 6 when ncirc=1
+            if op <= 5:
+                ev = NC + [0, 1, 4, 6, 7, 5][op]      # stream events start at NC when ncirc=1 (5 = DETACHED)
                 assume(model.enabled(ev))
                 kind, payload = model.apply(ev)
                 deliver(state, kind, payload)
@@ -325,12 +340,12 @@ def c08_circuit_waits(o2: int, o3: int, o4: int, o5: int, o6: int) -> str:
         return _circuit_waits(ops)
 
 
-_SW = (1, 2, 3, 4, 7, 8)
+_SW = (1, 2, 3, 4, 5, 7, 8)
 
 
 @cond(quick=dict(parts=[{'o2': a} for a in _SW], budget=100))
 def c08_stream_waits(o2: int, o3: int, o4: int, o5: int, o6: int) -> str:
-    """NEW, then 5 operations from {SENTCONNECT, SUCCEEDED, CLOSED, FAILED, close, ack}"""
+    """NEW, then 5 operations from {SENTCONNECT, SUCCEEDED, CLOSED, FAILED, DETACHED, close, ack}"""
     ops = [0, o2] + _ops([o3, o4, o5, o6], _SW)
     with api.no_tracing():
         return _stream_waits(ops)
